@@ -12,7 +12,7 @@
 (* allows; "dev:<finding>" = allowed only by a named as-built deviation;   *)
 (* otherwise the name of the first clause that fails.                      *)
 (***************************************************************************)
-EXTENDS Doc, Json, IOUtils
+EXTENDS Session, Json, IOUtils
 
 Traces == ndJsonDeserialize(IOEnv.TRACE_FILE)
 
@@ -79,7 +79,14 @@ Verdict(e) ==
       asb == ParseDocAsBuilt(e.doc, e.allow)
       md == ModelDiff(exp, e.result)
   IN IF e.want \in {"model", "links"} /\ ~WellFormed(e.doc) THEN "generator:not-well-formed"
-     ELSE IF md # "" THEN (IF ModelDiff(asb, e.result) = "" THEN "regression:as-built-resolution-or-comment-equality(" \o md \o ")" ELSE md)
+     ELSE IF e.want # "route" /\ md # "" THEN (IF ModelDiff(asb, e.result) = "" THEN "regression:as-built-resolution-or-comment-equality(" \o md \o ")" ELSE md)
+     ELSE IF e.want = "route"
+          THEN \* C12: every way of supplying the source, with and without BOM
+               LET rd == ModelDiff(ParseCall(e.route, e.bom, e.doc, e.opts), e.result) IN
+               IF rd # "" THEN "route " \o e.route \o ": " \o rd
+               ELSE IF e.result.kind = "db" /\ e.obs.renderers # ExpectedRenderers(e.route, e.opts)
+                    THEN "route " \o e.route \o ": renderer classes " \o e.obs.renderers
+               ELSE ""
      ELSE IF e.want = "props"
           THEN \* C15: the same text with the option off is a syntax error iff it uses property syntax;
                \* a property-free document is parsed and rendered identically under both values
